@@ -168,17 +168,49 @@ def table_of(e):
     return norm(it[2][0]) if it is not None else None
 
 
+CHANCE_TYS = ('SampledChance', 'ChanceRecurse', 'ChanceInfo')
+PLAYER_TYS = ('RegretInfoset', 'CachedInfoset')
+
+
+def loop_events(f, blocks):
+    """R / P events written as loops: `for info in table.iter_mut() { info.advance() }` (which is also
+    what `table.iter_mut().for_each(..)` is normalised to by inline.py)"""
+    out = []
+    for h, body in f.loops:
+        if h not in blocks or not (body < set(blocks)):
+            continue
+        t = f.blocks[h]['term']
+        if t['t'] != 'call' or short(t['callee'].get('path') or t['callee'].get('def') or '') != 'next' or not t['args']:
+            continue
+        ty = arg_ty(f, t, 0)
+        if 'IterMut' not in ty:
+            continue
+        calls = {short(p) for bi, tt, p in f.calls() if bi in body and bi != h}
+        e = f.call_expr(t, h)
+        if any(x in ty for x in CHANCE_TYS) and calls & {'advance', 'reset'}:
+            out.append((h, 'R:chance', e))
+        elif any(x in ty for x in PLAYER_TYS) and 'advance' in calls:
+            out.append((h, 'P', e))
+    return out
+
+
 def events_in(lib, f, blocks):
     ev = []
+    inner = set()
+    for h, k, e in loop_events(f, blocks):
+        ev.append((h, k, e))
+        inner |= dict(f.loops)[h] - {h}
     for bi, t, p in f.calls():
-        if bi in blocks:
+        if bi in blocks and bi not in inner:
             k = classify_event(lib, f, bi, t, p)
             if k:
                 ev.append((bi, k[0], k[1]))
 
+    snapshot = list(ev)
+
     def key(a):
-        return sum(1 for b, _, _ in ev if f.dominates(b, a[0]) and b != a[0])
-    ev.sort(key=key)
+        return sum(1 for b, _, _ in snapshot if f.dominates(b, a[0]) and b != a[0])
+    ev = sorted(snapshot, key=key)
     ordered = all(f.dominates(ev[i][0], ev[i + 1][0]) for i in range(len(ev) - 1))
     return ev, ordered
 
